@@ -161,3 +161,20 @@ for _k, _v in ADDENDA.items():
     if _k in CHECKS and not CHECKS[_k]["text"].endswith(_v):
         CHECKS[_k]["text"] += _v
 CHECKS["C12"]["note"] = CHECKS["C12"]["note"].replace(" The random-instant SIGKILL of a child process is not built yet (listed in DESIGN.md as future work).", "")
+
+ADDENDA2 = {
+ "C02": " Issuer likeness of the two CAs is drawn per world (unlike / same name / same key identifier) and the other certificate is queried first on the same instance.",
+ "C05": " Classes include answers whose signed responder id names the issuer while another certificate verifies the signature.",
+ "C06": " crlExtensions are rendered in four orders and with three kinds of unimplemented critical extension.",
+ "C09": " OpenDamaged: the database is found damaged when opened again (store level: MANIFEST overwritten; validator level: a 260k-entry CDP CRL, every table file removed in turn on a copy of work_dir, 24 listed certificates presented to a strict validator).",
+ "C13": " LockOrder.tla (repository lock / entry lock programs of load, lookup, refresh, Close; NoDeadlock, Ordered) with the race-worker phases 'twin' (pass and handshake load one not-loaded entry) and 'shutdown' (Cleanup overlapping a first-use download).",
+ "C14": " Predicates include: no valid entry and no authentic answer, yet the verdict is the status of the certificate's own expired entry.",
+ "C15": " Refresher.tla action Sibling: another instance is provisioned (failing or not) and cleaned up in the same process; a tick or the refresh-mutex accessor blocking although no pass is in progress is a violation.",
+ "C16": " Half of the worlds serve identical bytes for a document published again; guided reload paths present the same documents before and after the switch of the policy options.",
+ "C17": " The validator path also runs under verify_log with a signer that cannot be verified.",
+ "C19": " Every single fault and every unknown key is tried under every mode.",
+ "C20": " CrlRepo.tla Shutdown / LSwapClosed / Reprovision (ClosedStaysClosed, NoResidueClosed): the instance is cleaned up at every pc of a refresh before the swap, the run ends by itself, a new instance on the same work_dir finds the list that was in force.",
+}
+for _k, _v in ADDENDA2.items():
+    if _k in CHECKS and _v not in CHECKS[_k]["text"]:
+        CHECKS[_k]["text"] += _v
